@@ -158,10 +158,11 @@ fn run_case(cap: u64, ops: &[Op]) -> Outcome {
         if ntemps != handles.len() { out.fails.push(Fail { kind: "temp_file_count".into(), detail: format!("{} temp files, {} live handles after {}", ntemps, handles.len(), op_str(op)) }); }
         let live: u64 = handles.values().map(|h| h.2).sum();
         if xdeleted.is_empty() && c.size() != indexed_bytes + live {
-            if c.size() == indexed_bytes + live + leaked && leaked > 0 { out.fails.push(Fail { kind: "reservation_leak".into(), detail: format!("leaked={} after {}", leaked, op_str(op)) }); }
+            if c.size() == indexed_bytes + live + leaked && leaked > 0 { if !out.fails.iter().any(|f| f.kind == "reservation_leak") { out.fails.push(Fail { kind: "reservation_leak".into(), detail: format!("leaked={} after {}", leaked, op_str(op)) }); } }
             else { out.fails.push(Fail { kind: "size_accounting".into(), detail: format!("size()={} indexed_bytes={} live_reservations={} leaked={} after {}", c.size(), indexed_bytes, live, leaked, op_str(op)) }); }
         }
-        if !out.fails.is_empty() { break; }
+        // a leaked reservation (F-C07-c) does not stop the case: the rest of the sequence is still compared and monitored
+        if out.fails.iter().any(|f| f.kind != "reservation_leak") { break; }
     }
     out
 }
